@@ -114,9 +114,9 @@ fn watchdog_thread(stop: &'static AtomicBool, id: &'static str) {
                 let _ = std::fs::create_dir_all(format!("{}/replays", verif_root()));
                 let _ = std::fs::write(
                     &path,
-                    serde_json::to_string_pretty(&json!({"property": "C03", "check": id, "run_seed": run, "run_index": idx, "signature": "hang", "note": "a call into the library did not return within 20 s of wall-clock time; re-run with this run_seed"})).unwrap(),
+                    serde_json::to_string_pretty(&json!({"property": id, "check": id, "run_seed": run, "run_index": idx, "thorough": WATCH_THOROUGH.load(Ordering::Relaxed), "signature": "hang", "note": "a call into the library did not return within 20 s of wall-clock time (the run never ended, so there is no recorded tape to minimise: the replay re-runs this run_seed under the same watchdog)"})).unwrap(),
                 );
-                println!("VIOLATION property=C03 replay={}", path);
+                println!("VIOLATION property={} replay={}", id, path);
                 std::process::exit(1);
             }
         }
@@ -124,6 +124,7 @@ fn watchdog_thread(stop: &'static AtomicBool, id: &'static str) {
 }
 
 static STOP_WD: AtomicBool = AtomicBool::new(false);
+static WATCH_THOROUGH: AtomicBool = AtomicBool::new(false);
 
 pub fn run_check(def: &'static CheckDef, thorough: bool, seed: u64, budget_s: f64, max_runs: u64, threads: usize) -> i32 {
     let t0 = WallInstant::now();
@@ -131,6 +132,7 @@ pub fn run_check(def: &'static CheckDef, thorough: bool, seed: u64, budget_s: f6
     let mut known = load_known();
     known.retarget();
     STOP_WD.store(false, Ordering::Relaxed);
+    WATCH_THOROUGH.store(thorough, Ordering::Relaxed);
     watchdog_thread(&STOP_WD, def.id);
     let next = AtomicU64::new(0);
     let stop = AtomicBool::new(false);
@@ -157,7 +159,7 @@ pub fn run_check(def: &'static CheckDef, thorough: bool, seed: u64, budget_s: f6
                     WATCH_RUN[wi].store(rs, Ordering::Relaxed);
                     WATCH_IDX[wi].store(i, Ordering::Relaxed);
                     let mut tape = Tape::record(rs);
-                    let out = (def.scens[si].run)(&mut tape, def.props, thorough, false);
+                    let out = run_scen(def, si, &mut tape, thorough, false);
                     local.merge(&out.stats);
                     local.inc("runs");
                     let mut viol = out.viol;
@@ -320,6 +322,21 @@ pub fn run_check(def: &'static CheckDef, thorough: bool, seed: u64, budget_s: f6
     exit
 }
 
+/// One execution of a scenario of a check. A panic of the stack itself (caught at the API call it happened in)
+/// while a check's scenario runs is a violation for that check too, not only for C03: whatever the property promises
+/// about the inputs of that run, the stack did not do it.
+pub fn run_scen(def: &CheckDef, si: usize, tape: &mut Tape, thorough: bool, trace_on: bool) -> Outcome {
+    let mut out = (def.scens[si].run)(tape, def.props, thorough, trace_on);
+    if let Some(v) = out.viol.as_mut() {
+        if v.prop == "C03" && v.oracle == "no-unwind" && def.id != "C03" {
+            v.prop = def.id;
+            v.sig = format!("{}.{}", def.id, v.sig);
+            v.detail = format!("the stack panicked in a run of this property's scenario: {}", v.detail);
+        }
+    }
+    out
+}
+
 fn same_violation(out: &Outcome, want: &Violation) -> bool {
     match &out.viol {
         Some(v) => v.prop == want.prop && v.sig == want.sig,
@@ -331,11 +348,10 @@ fn same_violation(out: &Outcome, want: &Violation) -> bool {
 pub fn minimise(def: &CheckDef, scen: usize, thorough: bool, tape: &[u64], want: &Violation, budget_s: f64) -> (Vec<u64>, u32) {
     let t0 = WallInstant::now();
     let mut tries = 0u32;
-    let run = def.scens[scen].run;
     let mut test = |cand: &[u64], tries: &mut u32| -> bool {
         *tries += 1;
         let mut t = Tape::replay(cand.to_vec());
-        let out = run(&mut t, def.props, thorough, false);
+        let out = run_scen(def, scen, &mut t, thorough, false);
         same_violation(&out, want)
     };
     let mut cur = tape.to_vec();
@@ -418,7 +434,7 @@ pub fn minimise(def: &CheckDef, scen: usize, thorough: bool, tape: &[u64], want:
 fn write_replay(def: &CheckDef, scen: usize, thorough: bool, seed: u64, run_index: u64, tape: &[u64], orig_len: usize, tries: u32) -> String {
     // final traced execution of the minimised tape
     let mut t = Tape::replay(tape.to_vec());
-    let out = (def.scens[scen].run)(&mut t, def.props, thorough, true);
+    let out = run_scen(def, scen, &mut t, thorough, true);
     let v = out.viol.clone();
     let dir = format!("{}/replays", verif_root());
     let _ = std::fs::create_dir_all(&dir);
@@ -461,6 +477,23 @@ pub fn replay_file(defs: &'static [CheckDef], path: &str) -> i32 {
         eprintln!("unknown check {}", id);
         return 2;
     };
+    if j["signature"].as_str() == Some("hang") {
+        // the recorded run never returned: run the same seed again under the same watchdog (which prints the
+        // VIOLATION line and exits 1 when the library call again fails to return)
+        let (rs, idx) = (j["run_seed"].as_u64().unwrap_or(0), j["run_index"].as_u64().unwrap_or(0));
+        let thorough = j["thorough"].as_bool().unwrap_or(false);
+        STOP_WD.store(false, Ordering::Relaxed);
+        WATCH_THOROUGH.store(thorough, Ordering::Relaxed);
+        watchdog_thread(&STOP_WD, def.id);
+        WORKER.with(|c| c.set(0));
+        WATCH_RUN[0].store(rs, Ordering::Relaxed);
+        WATCH_IDX[0].store(idx, Ordering::Relaxed);
+        let mut t = Tape::record(rs);
+        let out = run_scen(def, pick_scen(def, idx), &mut t, thorough, false);
+        STOP_WD.store(true, Ordering::Relaxed);
+        eprintln!("replay of a recorded hang returned (violation: {:?})", out.viol.map(|v| v.sig));
+        return 2;
+    }
     let sname = j["scenario"].as_str().unwrap_or("");
     let Some(si) = def.scens.iter().position(|s| s.name == sname) else {
         eprintln!("unknown scenario {}", sname);
@@ -469,7 +502,7 @@ pub fn replay_file(defs: &'static [CheckDef], path: &str) -> i32 {
     let thorough = j["thorough"].as_bool().unwrap_or(false);
     let tape: Vec<u64> = j["tape"].as_array().map(|a| a.iter().map(|x| x.as_u64().unwrap_or(0)).collect()).unwrap_or_default();
     let mut t = Tape::replay(tape);
-    let out = (def.scens[si].run)(&mut t, def.props, thorough, true);
+    let out = run_scen(def, si, &mut t, thorough, true);
     for l in &out.trace {
         println!("{}", l);
     }
@@ -517,12 +550,12 @@ pub fn selfcheck_determinism(def: &'static CheckDef, n: u64, seed: u64, threads:
                     let si = pick_scen(def, i);
                     let rs = run_seed(seed, i);
                     let mut t1 = Tape::record(rs);
-                    let o1 = (def.scens[si].run)(&mut t1, def.props, false, false);
+                    let o1 = run_scen(def, si, &mut t1, false, false);
                     let mut t2 = Tape::record(rs);
-                    let o2 = (def.scens[si].run)(&mut t2, def.props, false, false);
+                    let o2 = run_scen(def, si, &mut t2, false, false);
                     // and once from the recorded tape
                     let mut t3 = Tape::replay(t1.rec.clone());
-                    let o3 = (def.scens[si].run)(&mut t3, def.props, false, false);
+                    let o3 = run_scen(def, si, &mut t3, false, false);
                     let h = o1.hash.hex();
                     if h != o2.hash.hex() || h != o3.hash.hex() || t1.rec != t2.rec || o1.viol.as_ref().map(|v| &v.sig) != o3.viol.as_ref().map(|v| &v.sig) {
                         bad.fetch_add(1, Ordering::Relaxed);
